@@ -132,6 +132,11 @@ func FaultChildMain(args []string) int {
 
 // runFault runs one injected session; injected = number of reads that were made to fail.
 func runFault(c *core.Ctx, when string) (r faultResult, injected int, ok bool) {
+	return runFaultSpec(c, "error=EIO", when)
+}
+
+// runFaultSpec: spec is strace's injection ("error=EIO", "error=EINTR", "retval=0", "retval=8").
+func runFaultSpec(c *core.Ctx, spec, when string) (r faultResult, injected int, ok bool) {
 	self, err := os.Executable()
 	if err != nil {
 		return r, 0, false
@@ -140,9 +145,9 @@ func runFault(c *core.Ctx, when string) (r faultResult, injected int, ok bool) {
 		c.Count("strace_missing", 1)
 		return r, 0, false
 	}
-	out := filepath.Join(c.Tmp, "fault-"+strings.ReplaceAll(when, ".", "_")+".json")
+	out := filepath.Join(c.Tmp, "fault-"+strings.ReplaceAll(spec, "=", "_")+"-"+strings.ReplaceAll(when, ".", "_")+".json")
 	trace := out + ".strace"
-	cmd := exec.Command("strace", "-f", "-o", trace, "-e", "trace=read", "-e", "inject=read:error=EIO:when="+when, "-P", "anon_inode:inotify", self, "faultchild", out)
+	cmd := exec.Command("strace", "-f", "-o", trace, "-e", "trace=read", "-e", "inject=read:"+spec+":when="+when, "-P", "anon_inode:inotify", self, "faultchild", out)
 	cmd.Stdout, cmd.Stderr = os.Stderr, os.Stderr
 	done := make(chan error, 1)
 	if err := cmd.Start(); err != nil {
